@@ -274,6 +274,18 @@ def fold_corpus(values=None):
     return ["%s %s %s" % (push(b), push(a), op) for op in BIN for a in vals for b in vals]
 
 
+def stack_corpus():
+    """permutations that need deep stack access: SWAPi POP SWAPj, DUPi SWAPj POP, for all depths"""
+    out = []
+    for i in range(1, 17):
+        for j in range(1, 17):
+            out.append("SWAP%d POP SWAP%d" % (i, j))
+            if (i + j) % 3 == 0:
+                out.append("DUP%d SWAP%d POP" % (i, j))
+                out.append("SWAP%d SWAP%d POP POP" % (i, j))
+    return out
+
+
 def mem_pair_corpus():
     """every ordered pair of memory accesses (word store, byte store, load, hash) at constant offsets around
     word boundaries, and at symbolic base + constant; the second access is followed by a load of each range"""
